@@ -169,7 +169,7 @@ def instant_of(u):
         u = u.tz_convert('UTC').tz_localize(None)
     q, r = divmod(u - pd.Timestamp(RENDER.s0), pd.Timedelta(hours=RENDER.unit))
     if r != pd.Timedelta(0):
-        raise Machinery('a stamp in the store that nobody published: %s' % u)
+        raise ValueError('a stamp in the store that nobody published: %s' % u)     # the library's doing: reported by the core
     return int(q)
 
 
